@@ -62,8 +62,15 @@ def sample_history(plan, limit=8):
       o["batch_families"] = [plan["pool"][j]["fam"] for j in op["batch"]] \
           if op["op"] != "bad_call" else None
     ops.append(o)
+  for o in ops:
+    for k in ("batch", "batch_families"):
+      if isinstance(o.get(k), list) and len(o[k]) > 24:
+        o[k] = o[k][:24] + ["... %d more" % (len(o[k]) - 24)]
+    if "oracle" in o:
+      o["oracle"] = [it["relation"] for it in o["oracle"]]
   return {"engine": "A", "kind": plan["kind"],
-          "pool": [a["fam"] for a in plan["pool"]],
+          "pool": [a["fam"] for a in plan["pool"]][:30],
+          "pool_size": len(plan["pool"]),
           "knobs": {k: v for k, v in plan.get("knobs", {}).items()
                     if k != "denylist"},
           "ops": ops, "ops_total": len(plan["ops"])}
@@ -470,7 +477,7 @@ def _judge_c16(ctx, plan, op, ev, arts, batch, is_all, cname, consistent,
                         "library version not recorded by %s" % cname))
     # severities of fresh entries
     for name, res, sev in v["entries"]:
-      exp = _expected_severity(ctx, name, res, v, ev, a)
+      exp = _expected_severity(ctx, name, res, v, ev, a, is_all)
       if exp is not None and sev not in exp:
         viol.append(_viol("C16", "severity", i, name,
                           "entry %s (result=%s) carries severity %d, "
@@ -545,7 +552,7 @@ def _known_issuer(arts, a):
   return None
 
 
-def _expected_severity(ctx, name, res, v, ev, art):
+def _expected_severity(ctx, name, res, v, ev, art, is_all=True):
   """Set of acceptable severities for a fresh entry, or None if unknown."""
   if name == "CheckIssuerKey":
     if not res:
@@ -558,6 +565,8 @@ def _expected_severity(ctx, name, res, v, ev, art):
     has_factors = any(n == "N_FACTORS" for n, _ in v["infos"])
     if not has_factors:
       return {ctx.sev["SEVERITY_UNKNOWN"]}
+    if not is_all:
+      return {doc}       # the factors were attached by this very check
     # factors may stem from another check of the same all-checks call
     return {doc, ctx.sev["SEVERITY_UNKNOWN"]}
   return {doc}
